@@ -251,13 +251,61 @@ def _summ(a):
     return r if len(r) <= 40 else r[:37] + "..."
 
 
+import time as _real_time   # noqa: E402
+
+_TIME_FUNCS = ("time", "monotonic", "perf_counter", "process_time", "thread_time", "time_ns", "monotonic_ns",
+               "perf_counter_ns", "process_time_ns", "sleep")
+
+
+class SimTime(types.ModuleType):
+    """Stand-in for the `time` module inside d42 modules (d42 reads no timer today; a change that adds
+    a deadline or a measurement reads this one).  Each read advances simulated time by world.time_step
+    seconds: 1e-6 normally, large in the 'slow machine' executions -- a result must not depend on it."""
+
+    def __init__(self, world):
+        super().__init__("time")
+        self._w = world
+
+    def _read(self):
+        w = self._w
+        w.time_now += w.time_step
+        w.stats["time_reads"] += 1
+        return w.time_now
+
+    def time(self):
+        return 1.7e9 + self._read()
+
+    def monotonic(self):
+        return self._read()
+
+    perf_counter = process_time = thread_time = monotonic
+
+    def time_ns(self):
+        return int(self.time() * 1e9)
+
+    def monotonic_ns(self):
+        return int(self._read() * 1e9)
+
+    perf_counter_ns = process_time_ns = monotonic_ns
+
+    def sleep(self, secs):
+        self._w.time_now += max(0.0, float(secs))
+
+    def __getattr__(self, name):
+        return getattr(_real_time, name)
+
+
 class World:
     """One simulated execution's worth of nondeterminism: schedule + clock + entropy + log."""
+
+    time_now = 0.0
+    time_step = 1e-6
 
     MAX_DRAWS = 20000
 
     def __init__(self):
         self.random = SimStdRandom(self)
+        self.time = SimTime(self)
         self.stats = _Counter()
         self.site_table = _Counter()      # (site, kind, selector) -> n ; cumulative over runs
         self.begin(Schedule("rnd"), 0)
@@ -277,7 +325,11 @@ class World:
         self.entropy_reads = 0
         self.sites = []
 
+    yield_hook = None     # set by sim.interleave.Interleaver: every draw is a possible pre-emption point
+
     def _next_selector(self, kind):
+        if self.yield_hook is not None:
+            self.yield_hook()
         i = self.draws
         if i >= self.MAX_DRAWS:
             raise DrawCapExceeded("more than %d draws in one run" % self.MAX_DRAWS)
@@ -497,7 +549,7 @@ for _n in ("seed", "random", "uniform", "randint", "choice", "randrange", "sampl
     _REAL_RANDOM_FUNCS[_n] = getattr(_real_random, _n)
 
 
-def install(world, clock=True, prng=True, entropy=True):
+def install(world, clock=True, prng=True, entropy=True, timer=True):
     """Rebind the nondeterminism seams inside every loaded d42 module.
 
     NB: the package attributes d42.generation._random etc. are *instances* shadowing the
@@ -537,9 +589,60 @@ def install(world, clock=True, prng=True, entropy=True):
                     setattr(mod, attr, SimDate)
                     patched.append("%s.%s=date" % (name, attr))
                     continue
+            if timer:
+                # any d42 module that starts to read the time module reads the simulated one: every
+                # deadline in the system must read the simulated clock
+                if val is _real_time:
+                    setattr(mod, attr, world.time)
+                    patched.append("%s.%s=time-module" % (name, attr))
+                    continue
+                tn = getattr(val, "__name__", None)
+                if tn in _TIME_FUNCS and val is getattr(_real_time, tn, None):
+                    setattr(mod, attr, getattr(world.time, tn))
+                    patched.append("%s.%s=time.%s" % (name, attr, tn))
+                    continue
             if in_generation and entropy:
                 if val is _uuid_mod.uuid4:
                     setattr(mod, attr, world.uuid4)
                     patched.append("%s.%s=uuid4" % (name, attr))
                     continue
     return patched
+
+
+# ------------------------------------------------------------------------- ambient process state
+
+class ambient_shift:
+    """Process-wide settings that an application may legitimately have changed before it calls d42, and
+    that no d42 result may depend on: the local time zone (TZ + tzset), the thread's decimal context
+    (precision 3, Inexact / Rounded trapped), the float repr-independent locale-free settings are left
+    alone.  Used as one more schedule dimension: the same operations are executed once in the worker's
+    own ambient state and once inside this shift."""
+
+    def __init__(self, tz="Pacific/Kiritimati"):
+        self.tz = tz
+
+    def __enter__(self):
+        import decimal
+        import os
+        import time
+        self._tz = os.environ.get("TZ")
+        os.environ["TZ"] = self.tz
+        time.tzset()
+        self._ctx = decimal.getcontext().copy()
+        c = decimal.getcontext()
+        c.prec = 3
+        c.traps[decimal.Inexact] = True
+        c.traps[decimal.Rounded] = True
+        return self
+
+    def __exit__(self, *a):
+        import decimal
+        import os
+        import time
+        decimal.setcontext(self._ctx)
+        if self._tz is None:
+            os.environ.pop("TZ", None)
+        else:
+            os.environ["TZ"] = self._tz
+        time.tzset()
+        return False
